@@ -164,6 +164,7 @@ def validatesW (env : Env) (w : World) (version : Str) (a : Addr) (idKey : Str) 
   let vs := (w.validators.filter (·.1 ≠ version)) ++ [(version, a)]
   match metaSchema with
   | .obj kvs =>
+    if Json.hasKey (skey "$ref") kvs then .ok (vs, w.metaSchemas) else
     match Json.lookup idKey kvs with
     | some (.str u) =>
       if u.isEmpty then .ok (vs, w.metaSchemas) else
@@ -202,12 +203,22 @@ def fcOk (w : World) (fc : Option Addr) : Bool :=
   | some f => match w.cell f with | some (.formatChecker _) => true | _ => false
 
 /-- `RefResolver.from_schema(schema, id_of=id_of)` in `__init__`: `_id_of` tolerates booleans,
-    `lambda schema: schema.get(u"id", u"")` does not; neither tolerates other non-dicts -/
+    `_legacy_id_of` does not; both answer `""` when `"$ref" in schema`, which also holds of a list
+    with that member and of a string with that substring; neither tolerates other non-dicts -/
 def ctorOk (idKey : Str) (schema : Json) : Bool :=
   match schema with
   | .obj _ => true
   | .bool _ => idKey = "$id".toList
+  | .arr xs => xs.contains (.str (skey "$ref"))
+  | .str s => hasInfix (skey "$ref") s
   | _ => false
+
+/-- the exception otherwise: `"$ref" in schema` (TypeError: not iterable), else `schema.get` -/
+def ctorExc (schema : Json) : String :=
+  match schema with
+  | .arr _ => "AttributeError"
+  | .str _ => "AttributeError"
+  | _ => "TypeError"
 
 def effect (env : Env) (w : World) (op : DOp) : Effect :=
   let n := w.heap.length
@@ -262,7 +273,7 @@ def effect (env : Env) (w : World) (op : DOp) : Effect :=
     match w.cell c with
     | some (.cls _ t idKey _ _) =>
       if !fcOk w fc then { result := .badAddr } else
-      if !ctorOk idKey schema then { result := .raised "AttributeError" [] } else
+      if !ctorOk idKey schema then { result := .raised (ctorExc schema) [] } else
       if types.isEmpty then
         { alloc := [.validator c none schema fc (metasOf w)], result := .created n }
       else
